@@ -434,7 +434,10 @@ func c18R3(c *Ctx, r *Report) {
 		}
 	}
 	a, b := unionSizeExpr(rto, nil), unionSizeExpr(sizeOf, resClause)
-	if r.Anchor(rule, a != "" && b != "", "unionSize in resultTagOffset and in SizeOf(ResultType)") {
+	if a != "" && b == "" && resClause != nil {
+		r.Fail(rule, sizeOf.Name(), "SizeOf(ResultType) rounds the payload area like resultTagOffset", c.pos(resClause.Pos()),
+			"resultTagOffset places the tag behind "+a+", but SizeOf(ResultType) no longer computes that rounded payload area: when the larger member's size is not a multiple of the larger alignment (str ! struct{i32,i32,i32}: tag at 16) the size reserved for the result (16) ends before the tag, so the tag byte is written and read outside the result's slot")
+	} else if r.Anchor(rule, a != "" && b != "", "unionSize in resultTagOffset and in SizeOf(ResultType)") {
 		r.Check(a == b, rule, rto.Name(), "tag offset = the union size SizeOf(ResultType) places the tag behind", c.pos(rto.Decl.Pos()),
 			fmt.Sprintf("resultTagOffset computes %s but SizeOf(ResultType) reserves the tag byte behind %s", a, b))
 		// and SizeOf reserves at least one byte after it
